@@ -226,7 +226,7 @@ def compare_model(ctx, jm, m_in, m_out):
   return diffs
 
 
-PRELUDE = '''From VF Require Import Base.Prelude Gen.Enums Model.Graph Model.Insts Model.Perform Spec.WFb.
+PRELUDE = '''From VF Require Import Base.Prelude Gen.Enums Model.Graph Model.Insts Model.Perform Spec.WFb Proofs.SemRun.
 Open Scope Z_scope.
 Definition run_case (c : model * list ttp) : list Z :=
   let r1 := insts_of_params (fst c) (snd c) in
@@ -244,7 +244,28 @@ Definition run_case (c : model * list ttp) : list Z :=
   let concl := match r2 with
                | Ok m' => forallb wf_sgb (m_subgraphs m') && forallb names_uniqueb (m_subgraphs m')
                | Err _ => true end in
-  flat (JL [Jres (Jlist J_tinsts) r1; Jres J_model r2; JB hyp; JB concl]).
+  (* C06 over whole runs: for a float-compute run (every instruction is
+     ADD_DEQUANTIZE or NO_QUANTIZE) each result subgraph is an interleaving of
+     the original ops with DEQUANTIZE ops on constants (interb, sound w.r.t.
+     [inter], for which meaning preservation is a theorem) *)
+  let wo := match r1 with
+            | Ok tis => forallb (fun ti => forallb (fun i =>
+                          match i_trans i with Tr_ADD_DEQUANTIZE | Tr_NO_QUANTIZE => true | _ => false end)
+                          (ti_insts ti)) tis
+                        && existsb (fun ti => existsb (fun i =>
+                          match i_trans i with Tr_ADD_DEQUANTIZE => true | _ => false end) (ti_insts ti)) tis
+            | Err _ => false end in
+  let sem := match r2 with
+             | Ok m' =>
+                 forall2b (fun g0 g =>
+                   let n0 := lenZ (sg_tensors g0) in
+                   let isq := fun c => existsb (fun o => Z.eqb (o_uid o) UID_INSERTED &&
+                                                         match o_ins o with [y] => Z.eqb y c | _ => false end)
+                                               (sg_ops g) in
+                   interb n0 isq [] (sg_ops g0) (sg_ops g))
+                   (m_subgraphs (fst c)) (m_subgraphs m')
+             | Err _ => true end in
+  flat (JL [Jres (Jlist J_tinsts) r1; Jres J_model r2; JB hyp; JB concl; JB wo; JB (negb wo || sem)]).
 '''
 
 
@@ -433,12 +454,18 @@ def main():
                                 timeout=1200)
   mism = []
   hyp_checked = 0
+  float_runs = 0
   for si, idxs in enumerate(shards):
     got = results[f'graph_{si}']
     for k, i in enumerate(idxs):
       lit, ctx, ji, m_in, m_out, desc, mb = cases[i]
-      jr1, jr2, jhyp, jconcl = vlib.unflat(got[k])
+      jr1, jr2, jhyp, jconcl, jwo, jsem = vlib.unflat(got[k])
       hyp_checked += 1
+      float_runs += int(bool(jwo))
+      if not jsem:
+        mism.append({'interface': 'T', 'case': i, 'recipe': desc,
+                     'what': 'float-compute run whose result is not an interleaving of the original ops with '
+                             'DEQUANTIZE ops on constants (interb false)'})
       if not jhyp:
         mism.append({'interface': 'hypotheses', 'case': i, 'recipe': desc,
                      'what': 'generated input does not satisfy wf_sgb / uids_okb (hypotheses of the composition theorems)'})
@@ -466,6 +493,7 @@ def main():
         mism.append({'interface': 'E', 'case': i, 'recipe': desc, 'diffs': d[:5]})
   out = {
       'interface': 'I+T+E', 'evaluations': len(cases), 'theorem_hypotheses_checked_on_inputs': hyp_checked,
+      'float_compute_runs_checked_interleaving': float_runs,
       'distinct_nontrivial': len(nontrivial),
       'n_mismatches': len(mism), 'mismatches': mism[:10],
       'oracle_violations': dedup(viol), 'distribution': dict(dist),
